@@ -126,6 +126,12 @@ class Report:
                 print(f"KNOWN-FINDING: property={self.pid} rule={v['rule']} key={v['key']} at {v['at']} :: {v['msg']}")
             else:
                 real.append(v)
+        # listed findings that this run did not reproduce: repaired upstream (the line should become `fixed:`), or the rule no longer reaches the construct
+        reproduced = {(v["rule"], v["key"]) for v in self.violations}
+        for (pid_, rule_, key_), _txt in known.findings.items():
+            if pid_ == self.pid and (rule_, key_) not in reproduced:
+                print(f"NOTE: known finding not reproduced on this tree: property={pid_} rule={rule_} key={key_} (repaired - then the line should read `fixed:` - or no longer reached by the rule)")
+                self.extra.setdefault("known_findings_not_reproduced", []).append(f"{rule_} {key_}")
         os.makedirs(os.path.join(VERIF, "replays"), exist_ok=True)
         for i, v in enumerate(real):
             path = os.path.join(VERIF, "replays", f"{self.pid}_{i}.json")
